@@ -2,7 +2,7 @@
 # usage: seedcheck.sh <seed-dir-with-patch.diff-and-demo> <name> <IDs comma-separated> [tier]
 # Confirms a seeded change in a scratch worktree (applies, builds, existing tests of touched packages pass, demo fails
 # with / passes without the change), then runs the given checks against it. Prints one line per step.
-src=$1; name=$2; ids=$3; tier=${4:-quick}
+src=$(readlink -f "$1"); name=$2; ids=$3; tier=${4:-quick}
 export GOFLAGS=-mod=mod GOPROXY=off GOSUMDB=off GOTOOLCHAIN=local
 W=/tmp/seedchk-$name-$$
 git -C /repo worktree add -q --detach "$W" HEAD || exit 2
